@@ -17,18 +17,25 @@ CONSTANTS
                \* transitions between such states (histories of any length)
   Rich         \* TRUE: larger value / bad-value / override alphabets
 
-(* Metaclass variants of that tree (which classes are declared with a derived     *)
-(* metaclass); the model's transitions do not depend on the variant - the replay   *)
-(* runs every walk on real classes built per variant (rotating; the walks of the   *)
-(* global setting under EVERY variant).                                            *)
-MetaVariants == << <<0, 0, 1, 0, 0, 0, 0>>,    \* 3 (and so 5, instance 6) vs plain 1, 2, 4, 7
-                   <<0, 1, 0, 0, 0, 0, 0>>,    \* everything below the real class
-                   <<0, 0, 0, 1, 1, 0, 0>>,    \* two unrelated derived metaclasses (4; 5)
-                   <<0, 0, 0, 0, 0, 0, 0>> >>  \* none
-Tree == [par |-> <<0, 1, 2, 2, 3, 5, 4>>, nc |-> 5, dm |-> MetaVariants[1]]
+(* Class variants of that tree: dm = which classes are declared with a derived      *)
+(* metaclass, fl = which classes define `__len__` returning 0 (falsy instances).    *)
+(* The model's transitions do not depend on the variant - the replay runs every     *)
+(* walk on real classes built per variant (rotating; the walks of the global        *)
+(* setting under EVERY variant).                                                    *)
+ClassVariants ==
+  << [dm |-> <<0, 0, 1, 0, 0, 0, 0>>,    \* 3 (and so 5, instance 6) vs plain 1, 2, 4, 7
+      fl |-> <<0, 0, 0, 0, 1, 0, 0>>],   \* instance 6 falsy, instance 7 truthy
+     [dm |-> <<0, 1, 0, 0, 0, 0, 0>>,    \* everything below the real class
+      fl |-> <<0, 1, 0, 0, 0, 0, 0>>],   \* both instances falsy (inherited __len__)
+     [dm |-> <<0, 0, 0, 1, 1, 0, 0>>,    \* two unrelated derived metaclasses (4; 5)
+      fl |-> <<0, 0, 0, 1, 0, 0, 0>>],   \* instance 7 falsy, instance 6 truthy
+     [dm |-> <<0, 0, 0, 0, 0, 0, 0>>,
+      fl |-> <<0, 0, 0, 0, 0, 0, 0>>] >> \* plain
+Tree == [par |-> <<0, 1, 2, 2, 3, 5, 4>>, nc |-> 5, dm |-> ClassVariants[1].dm, fl |-> ClassVariants[1].fl]
 N == Len(Tree.par)
 ASSUME WellFormedTree(Tree)
-ASSUME \A i \in 1..Len(MetaVariants) : WellFormedTree([Tree EXCEPT !.dm = MetaVariants[i]])
+ASSUME \A i \in 1..Len(ClassVariants) :
+         WellFormedTree([Tree EXCEPT !.dm = ClassVariants[i].dm, !.fl = ClassVariants[i].fl])
 
 VARIABLES fam, cur, S, out
 vars == <<fam, cur, S, out>>
@@ -200,5 +207,5 @@ InitDump ==
     /\ PrintT(<<"DEFAULTS", ToJson([fam |-> fam, par |-> Tree.par, nc |-> Tree.nc,
                  eff |-> [i \in 1..Len(SettingSeq) |->
                             [set |-> SettingSeq[i], v |-> Show(ObsDefault(fam, SettingSeq[i]))]],
-                 gate |-> "shut", geos |-> GeoTable, metas |-> MetaVariants])>>)
+                 gate |-> "shut", geos |-> GeoTable, variants |-> ClassVariants])>>)
 =============================================================================
